@@ -3,32 +3,84 @@ import Mathlib.Algebra.BigOperators.Fin
 import Mathlib.Algebra.BigOperators.Ring.Finset
 import Mathlib.Algebra.Order.BigOperators.Group.Finset
 import Mathlib.Algebra.Order.BigOperators.Ring.Finset
+import Mathlib.Algebra.Order.Field.Basic
 import Mathlib.Data.Fintype.BigOperators
 import Mathlib.Tactic
 /-!
-# Bridging lemmas for the `Cluster` model: from `Vector`/`List` code to `Finset` sums
+# Bridging lemmas for the `Cluster` model
+
+* generic part (any linearly ordered field `K`, used at `K = ℚ` for the executable model and at `K = ℝ`
+  for arbitrary real weights): domain predicates, the adjacency indicator `indK`/`adjK`, the sign parts;
+* `ℚ` part: from the `Vector`/`List` code of the model to `Finset` sums.
 -/
 namespace Bct.Cluster
 open Finset Bct
 
 variable {n : ℕ}
 
+@[simp] theorem map_get {α β : Type} (f : α → β) (A : AMat α n) (i j : Fin n) :
+    (AMat.map f A).get i j = f (A.get i j) := by simp [AMat.map]
+
+theorem get_ofFn_vec {α} (f : Fin n → α) (i : Fin n) : (Vector.ofFn f)[i] = f i := by simp
+
+section Generic
+variable {K : Type} [Field K] [LinearOrder K] [IsStrictOrderedRing K]
+
 /-! ### domain predicates used by the property theorems -/
 
 /-- every entry is 0 or 1 -/
-def Bin (A : AMat ℚ n) : Prop := ∀ i j, A.get i j = 0 ∨ A.get i j = 1
+def Bin (A : AMat K n) : Prop := ∀ i j, A.get i j = 0 ∨ A.get i j = 1
 /-- undirected network -/
-def Symm (A : AMat ℚ n) : Prop := ∀ i j, A.get i j = A.get j i
+def Symm (A : AMat K n) : Prop := ∀ i j, A.get i j = A.get j i
 /-- no self-connections -/
-def EmptyDiag (A : AMat ℚ n) : Prop := ∀ i, A.get i i = 0
-/-- `R` is the entrywise (real) cube root of `W` -/
-def IsCbrt (R W : AMat ℚ n) : Prop := ∀ i j, R.get i j ^ 3 = W.get i j
+def EmptyDiag (A : AMat K n) : Prop := ∀ i, A.get i i = 0
+/-- `R` is the entrywise cube root of `W` -/
+def IsCbrt (R W : AMat K n) : Prop := ∀ i j, R.get i j ^ 3 = W.get i j
 /-- weights in [0,1] -/
-def In01 (W : AMat ℚ n) : Prop := ∀ i j, 0 ≤ W.get i j ∧ W.get i j ≤ 1
+def In01 (W : AMat K n) : Prop := ∀ i j, 0 ≤ W.get i j ∧ W.get i j ≤ 1
+/-- weights in [-1,1] -/
+def InPm1 (W : AMat K n) : Prop := ∀ i j, -1 ≤ W.get i j ∧ W.get i j ≤ 1
 /-- `i` and `j` are linked in at least one direction -/
-def Nb (W : AMat ℚ n) (i j : Fin n) : Prop := W.get i j ≠ 0 ∨ W.get j i ≠ 0
+def Nb (W : AMat K n) (i j : Fin n) : Prop := W.get i j ≠ 0 ∨ W.get j i ≠ 0
 
-/-! ### sums and cell access -/
+/-- `np.logical_not(x == 0).astype(float)` on one entry -/
+def indK (x : K) : K := if x = 0 then 0 else 1
+/-- adjacency matrix / `binarize` -/
+def adjK (W : AMat K n) : AMat K n := AMat.map indK W
+/-- `W.copy(); np.fill_diagonal(W, 0)` -/
+def zeroDiagK (W : AMat K n) : AMat K n := AMat.ofFn fun i j => if i = j then 0 else W.get i j
+/-- `W * (W > 0)` -/
+def posPartK (W : AMat K n) : AMat K n := AMat.map (fun x => if 0 < x then x else 0) W
+/-- `-W * (W < 0)` -/
+def negPartK (W : AMat K n) : AMat K n := AMat.map (fun x => if x < 0 then -x else 0) W
+
+@[simp] theorem adjK_get (W : AMat K n) (i j : Fin n) : (adjK W).get i j = indK (W.get i j) := by
+  simp [adjK]
+
+theorem ind_bin (x : K) : indK x = 0 ∨ indK x = 1 := by unfold indK; split_ifs <;> simp
+theorem ind_eq_zero {x : K} : indK x = 0 ↔ x = 0 := by unfold indK; split_ifs <;> simp [*]
+theorem ind_of_bin {x : K} (h : x = 0 ∨ x = 1) : indK x = x := by rcases h with h | h <;> simp [indK, h]
+theorem ind_nonneg (x : K) : 0 ≤ indK x := by rcases ind_bin x with h | h <;> simp [h]
+theorem ind_le_one (x : K) : indK x ≤ 1 := by rcases ind_bin x with h | h <;> simp [h]
+theorem ind_ind (x : K) : indK (indK x) = indK x := ind_of_bin (ind_bin x)
+
+theorem adj_bin (W : AMat K n) : Bin (adjK W) := fun i j => by simpa using ind_bin _
+theorem adj_of_bin {W : AMat K n} (h : Bin W) : adjK W = W :=
+  AMat.ext_get fun i j => by simpa using ind_of_bin (h i j)
+theorem adj_symm {W : AMat K n} (h : Symm W) : Symm (adjK W) := fun i j => by simp [h i j]
+theorem adj_emptyDiag {W : AMat K n} (h : EmptyDiag W) : EmptyDiag (adjK W) := fun i => by simp [h i, indK]
+theorem adj_adj (W : AMat K n) : adjK (adjK W) = adjK W := adj_of_bin (adj_bin W)
+
+@[simp] theorem zeroDiag_get (W : AMat K n) (i j : Fin n) :
+    (zeroDiagK W).get i j = if i = j then 0 else W.get i j := by simp [zeroDiagK]
+@[simp] theorem posPart_get (W : AMat K n) (i j : Fin n) :
+    (posPartK W).get i j = if 0 < W.get i j then W.get i j else 0 := by simp [posPartK]
+@[simp] theorem negPart_get (W : AMat K n) (i j : Fin n) :
+    (negPartK W).get i j = if W.get i j < 0 then -W.get i j else 0 := by simp [negPartK]
+
+end Generic
+
+/-! ### the `ℚ` model: sums and cell access -/
 
 theorem vsum_eq (f : Fin n → ℚ) : vsum f = ∑ i, f i := by
   unfold vsum; rw [Fin.sum_univ_def]
@@ -43,11 +95,18 @@ theorem vsum_eq (f : Fin n → ℚ) : vsum f = ∑ i, f i := by
 @[simp] theorem transpose_get (A : AMat ℚ n) (i j : Fin n) : (AMat.transpose A).get i j = A.get j i := by
   simp [AMat.transpose]
 
-@[simp] theorem map_get (f : ℚ → ℚ) (A : AMat ℚ n) (i j : Fin n) : (AMat.map f A).get i j = f (A.get i j) := by
-  simp [AMat.map]
+theorem ind_eq (x : ℚ) : ind x = indK x := by unfold ind indK; split_ifs <;> rfl
+theorem adj_eq (W : AMat ℚ n) : adj W = adjK W :=
+  AMat.ext_get fun i j => by simp [adj, ind_eq]
+theorem zeroDiag_eq (W : AMat ℚ n) : zeroDiag W = zeroDiagK W :=
+  AMat.ext_get fun i j => by simp [zeroDiag]
+theorem posPart_eq (W : AMat ℚ n) : posPart W = posPartK W :=
+  AMat.ext_get fun i j => by simp [posPart]
+theorem negPart_eq (W : AMat ℚ n) : negPart W = negPartK W :=
+  AMat.ext_get fun i j => by simp [negPart]
 
-@[simp] theorem adj_get (W : AMat ℚ n) (i j : Fin n) : (adj W).get i j = ind (W.get i j) := by
-  simp [adj]
+@[simp] theorem adj_get (W : AMat ℚ n) (i j : Fin n) : (adj W).get i j = indK (W.get i j) := by
+  simp [adj_eq]
 
 theorem rowSum_eq (A : AMat ℚ n) (i : Fin n) : rowSum A i = ∑ j, A.get i j := by simp [rowSum, vsum_eq]
 theorem colSum_eq (A : AMat ℚ n) (j : Fin n) : colSum A j = ∑ i, A.get i j := by simp [colSum, vsum_eq]
@@ -58,20 +117,5 @@ theorem total_eq (A : AMat ℚ n) : total A = ∑ i, ∑ j, A.get i j := by simp
 theorem diag_cube (S : AMat ℚ n) (i : Fin n) :
     (mmul S (mmul S S)).get i i = ∑ j, ∑ k, S.get i j * S.get j k * S.get k i := by
   simp only [mmul_get, Finset.mul_sum, mul_assoc]
-
-theorem ind_bin (x : ℚ) : ind x = 0 ∨ ind x = 1 := by unfold ind; split_ifs <;> simp
-theorem ind_eq_zero {x : ℚ} : ind x = 0 ↔ x = 0 := by unfold ind; split_ifs <;> simp [*]
-theorem ind_of_bin {x : ℚ} (h : x = 0 ∨ x = 1) : ind x = x := by rcases h with h | h <;> simp [ind, h]
-theorem ind_nonneg (x : ℚ) : 0 ≤ ind x := by rcases ind_bin x with h | h <;> simp [h]
-theorem ind_le_one (x : ℚ) : ind x ≤ 1 := by rcases ind_bin x with h | h <;> simp [h]
-theorem ind_ind (x : ℚ) : ind (ind x) = ind x := ind_of_bin (ind_bin x)
-
-theorem adj_bin (W : AMat ℚ n) : Bin (adj W) := fun i j => by simpa using ind_bin _
-theorem adj_of_bin {W : AMat ℚ n} (h : Bin W) : adj W = W :=
-  AMat.ext_get fun i j => by simpa using ind_of_bin (h i j)
-theorem adj_symm {W : AMat ℚ n} (h : Symm W) : Symm (adj W) := fun i j => by simp [h i j]
-theorem adj_emptyDiag {W : AMat ℚ n} (h : EmptyDiag W) : EmptyDiag (adj W) := fun i => by simp [h i, ind]
-
-theorem get_ofFn_vec {α} (f : Fin n → α) (i : Fin n) : (Vector.ofFn f)[i] = f i := by simp
 
 end Bct.Cluster
